@@ -189,12 +189,16 @@ func freeRun(tw *traceWriter, run int, churn int) {
 				}
 				emit(map[string]interface{}{"k": "handler_done", "s": i})
 			}
-			isDo := i%2 == 0
-			emit(map[string]interface{}{"k": "start_call", "s": i, "id": i, "raw": ints(snapshot), "t": c.now(), "do": isDo})
+			isInd := i%9 == 5
+			isDo := i%2 == 0 && !isInd // an indication among the transactions: written once, never registered, replies are strangers
+			emit(map[string]interface{}{"k": "start_call", "s": i, "id": i, "raw": ints(snapshot), "t": c.now(), "do": isDo, "ind": isInd})
 			var err error
-			if isDo {
+			switch {
+			case isInd:
+				err = cli.Indicate(m)
+			case isDo:
 				err = cli.Do(m, h)
-			} else {
+			default:
 				err = cli.Start(m, h)
 			}
 			for j := range m.Raw {
